@@ -261,6 +261,8 @@ def conformance(nr, nw, rounds, fields, dot):
             pstates = [(sid, states[sid]) for sid in sids]
             validated, mismatch = rp.run_path(path, pstates, out)
             runs += 1
+            if isinstance(mismatch, str):
+                mismatch = (mismatch, None, None)
             if mismatch:
                 return dict(edges=len(edges), edges_replayed=replayed,
                             runs=runs, model_divergence=dict(
